@@ -10,6 +10,7 @@ from ..report import Check
 from ..cfg import no_exc
 from ..rules import Resolver, branch_reaches_exit, calls_in_func, dispatch_sites, last_name
 from . import common
+from .common import waiting_future_key
 from .sym import auto_persist_set, saved_loaded_keys
 
 # (state-constructor parameter  <-  command field) pairs that mean the same thing under different names
@@ -322,7 +323,7 @@ def resume_value_forwarding(chk: Check, rule: str) -> None:
     labels = {repr(calls.state_ctor_label(we, c)) for c in wc}
     chk.ob(rule, we, labels == {'ProcessState.RUNNING'} and len(wc) >= 1, 'WAITING executes into RUNNING', kind='waiting-to-running')
     # the awaited value
-    aw = [n for n in ast.walk(we.node) if isinstance(n, ast.Assign) and isinstance(n.value, ast.Await) and ff.canon.key(n.value.value) == 'self._waiting_future'
+    aw = [n for n in ast.walk(we.node) if isinstance(n, ast.Assign) and isinstance(n.value, ast.Await) and ff.canon.key(n.value.value) == waiting_future_key(prog)
           and isinstance(n.targets[0], ast.Name)]
     var = aw[0].targets[0].id if len(aw) == 1 else None
     chk.ob(rule, we, var is not None, 'the value the waiting future resolves to is kept', kind='awaited-value-kept')
@@ -335,6 +336,17 @@ def resume_value_forwarding(chk: Check, rule: str) -> None:
         for a in c.args[1:]:
             if isinstance(a, ast.Starred):
                 v = res.expand(a.value)
+                # a local bound once per branch of an if/else is the same thing as one conditional expression
+                if isinstance(v, ast.Name):
+                    from ..rules import conditional_values as _cv
+                    cvs = _cv(ff, v.id)
+                    if len(cvs) >= 2 and all(isinstance(x, ast.Tuple) for _, x in cvs):
+                        new = []
+                        for atoms, args in variants:
+                            for fs_, tup in cvs:
+                                new.append((atoms | frozenset(fs_), args + [norm(e) for e in tup.elts]))
+                        variants = new
+                        continue
                 if isinstance(v, ast.IfExp) and isinstance(v.body, ast.Tuple) and isinstance(v.orelse, ast.Tuple):
                     new = []
                     for atoms, args in variants:
@@ -370,7 +382,7 @@ def resume_value_forwarding(chk: Check, rule: str) -> None:
             continue
         f2 = chk.ctx.facts.analyse(ex2)
         mk = [m for c in calls_in_func(ex2) if calls.state_ctor_label(ex2, c) is not None for m in f2.cfg.nodes_containing(c)]
-        waits = [m for m in f2.cfg.nodes if m.expr() is not None and any(isinstance(x, ast.Await) and (f2.canon.key(x.value) == 'self._waiting_future' or (
+        waits = [m for m in f2.cfg.nodes if m.expr() is not None and any(isinstance(x, ast.Await) and (f2.canon.key(x.value) == waiting_future_key(prog) or (
             isinstance(x.value, ast.Call) and norm(x.value.func) == 'super().execute')) for x in walk_shallow(m.expr()))]
         ok2 = all(f2.cfg.must_pass(f2.cfg.entry, [m], lambda x: x in waits, edge_ok=no_exc) for m in mk)
         chk.ob(rule, ex2, ok2, f'{sc.name}.execute builds the next state only after the waiting future was awaited (the wake-up, which is sent once the results are in place, is the only '
@@ -420,7 +432,7 @@ def resume_value_reaches_future(chk: Check, rule: str) -> None:
     from ..decisions import paths_under
     from ..fut import writer_sites
     prog = chk.prog
-    LOC = 'self._waiting_future'
+    LOC = waiting_future_key(prog)
     w = prog.cls('process_states.Waiting')
     wr = prog.func('process_states.Waiting.resume')
     vparam = wr.params[1] if len(wr.params) > 1 else None
